@@ -85,6 +85,20 @@ func runHistScenario(seed uint64, size int, t *Trace) {
 				continue
 			}
 		}
+		if r.Chance(5) {
+			// I/O fault the other way round: writes of the history fail, reads work. A save that has to write
+			// reports the failure (the reading is NOT in the store, so it must not be treated as persisted);
+			// a save of the value that is already there has nothing to write and succeeds.
+			restore, ferr := c.VerifBreakHistoryWrites()
+			if ferr == nil {
+				v := vals[r.Intn(len(vals))]
+				errS := c.VerifSaveReading(ts, v)
+				restore()
+				t.Count("hist.writefault")
+				t.Line("cl.hist.writefault ts=%d v=%d => save=%v %s", ts, v, errS == nil, histCanon(dir))
+				continue
+			}
+		}
 		if r.Chance(65) {
 			v := vals[r.Intn(len(vals))]
 			if r.Chance(30) {
